@@ -576,6 +576,36 @@ def surface_fallback(P, rep, rule="G3.surface"):
         if any(x.get("k") in ("ContinueStmt",) for x in F.walk(body)):
             ok = False
             why = "the full scan skips some triangles (continue): it no longer tests every triangle against the point and its alias"
+        # a test that is skipped under a flag array: the flags must be set and read in the same index space (the index fields are
+        # the same member of the same record), else triangles that were never tested are skipped
+        for c in calls:
+            for a in F.ancestors(c):
+                if a is prev:
+                    break
+                conds = []
+                if a.get("k") == "IfStmt":
+                    conds = [a["c"][0]]
+                for cnd in conds:
+                    for y in F.walk(cnd):
+                        sb = astq.subscript(y)
+                        if not sb or sc(sb[0]).get("k") != "DeclRefExpr" or P.d(sc(sb[0])["r"]).get("storage") != "local":
+                            continue
+                        flag = sc(sb[0])["r"]
+                        rd = sc(sb[1])
+                        writes = []
+                        for w in F.walk():
+                            if w.get("k") in ("BinaryOperator", "CXXOperatorCallExpr") and w.get("op") == "=":
+                                kids = [z for z in w["c"] if z is not None]
+                                ws = astq.subscript(sc(kids[-2]))
+                                if ws and astq.is_ref_to(sc(ws[0]), flag):
+                                    writes.append(sc(ws[1]))
+                        for wr in writes:
+                            same = rd.get("k") == "MemberExpr" and wr.get("k") == "MemberExpr" and rd.get("r") == wr.get("r")
+                            if not same:
+                                ok = False
+                                why = ("the full scan skips a triangle when %s[%s] is set, but the flags are set at [%s]: a different index space "
+                                       "(%s vs %s)" % (P.d(flag).get("n"), norm.render(P, rd), norm.render(P, wr),
+                                                       P.d(rd.get("r")).get("qn") or norm.render(P, rd), P.d(wr.get("r")).get("qn") or norm.render(P, wr)))
     if ok:
         rep.ok(rule, "local_value: full scan over tree.get_nodes() (point and alias) precedes the throw", F.nloc(prev), F.qn)
     else:
